@@ -12,7 +12,25 @@ type (
 	RWMutex   = vrt.RWMutex
 	WaitGroup = vrt.WaitGroup
 	Once      = vrt.Once
+	Cond      = vrt.Cond
 	Map       = sync.Map
 	Pool      = sync.Pool
 	Locker    = sync.Locker
 )
+
+func NewCond(l Locker) *Cond { return vrt.NewCond(l) }
+
+// OnceFunc / OnceValue (Go 1.21)
+func OnceFunc(f func()) func() {
+	var o vrt.Once
+	return func() { o.Do(f) }
+}
+
+func OnceValue[T any](f func() T) func() T {
+	var o vrt.Once
+	var v T
+	return func() T {
+		o.Do(func() { v = f() })
+		return v
+	}
+}
